@@ -2,12 +2,13 @@
 (* step st kind inputs = (st', expected observations).                                   *)
 (* Kinds flagged by is_monitor have inputs that are *observed* on the implementation and  *)
 (* a constant expected output: a mismatch there is a property violation on the real code. *)
-From VD Require Import Base.Words Model.Layout Model.Queue Extract.QueueIO Extract.QueueMon.
+From VD Require Import Base.Words Model.Layout Model.Queue Extract.QueueIO Extract.QueueMon Extract.OwningIO Extract.MmioIO.
 
 Inductive mstate :=
 | MNone
 | MTag (n : N)
-| MQueue (q : qstate).
+| MQueue (q : qstate)
+| MOwning (q : option qstate).
 
 Definition bad : list N := [77777].
 
@@ -15,7 +16,7 @@ Definition bad : list N := [77777].
 Definition is_diag (k : N) : bool := (k =? 140).
 
 Definition is_monitor (k : N) : bool :=
-  (k =? 1) || (k =? 2) || (k =? 612) || ((150 <=? k) && (k <? 160)).
+  (k =? 1) || (k =? 2) || (k =? 612) || ((150 <=? k) && (k <? 160)) || (k =? 1950) || (k =? 1951) || mmio_is_monitor k.
 
 Definition dir_reads (d : N) : bool := (d =? 0) || (d =? 2).
 Definition dir_writes (d : N) : bool := (d =? 1) || (d =? 2).
@@ -37,11 +38,19 @@ Definition step (st : mstate) (k : N) (ins : list N) : mstate * list N :=
                    && dir_reads d1 && dir_writes d2)]
          | _ => bad end)
   else
+  (* ---- C10: MMIO transport (kinds 1000..1099) ---- *)
+  if (1000 <=? k) && (k <? 1100) then (st, mmio_step k ins) else
   (* ---- virtqueue core (C01-C05, C07, C19) ---- *)
   if k =? 100 then
     match ins with
     | [size; ind; ev] => (MQueue (qnew size (n2b ind) (n2b ev)), [])
     | _ => (st, bad) end
+  else if (1000 <=? k) && (k <? 1100) then (st, mmio_step k ins)
+  else if k =? 1950 then (st, [b2n (mon_owning ins)])
+  else if k =? 1951 then (st, [b2n (mon_input ins)])
+  else if (1900 <=? k) && (k <? 1950) then
+    let q := match st with MOwning q => q | _ => None end in
+    let '(q', o) := owning_step q k ins in (MOwning q', o)
   else if (150 <=? k) && (k <? 160) then (st, queue_monitor k ins)
   else if (100 <? k) && (k <? 150) then
     match st with
